@@ -5,6 +5,7 @@ import (
 	"bytes"
 	"fmt"
 	"io"
+	"net/http"
 	"net/url"
 	"strings"
 	"sync"
@@ -241,21 +242,46 @@ func subCutRandom() mon.Sub {
 func subHandshakeWriteFault() mon.Sub {
 	return mon.Sub{
 		Name: "handshake-write-fault", Exhaustive: true, Required: true,
-		N: func(string) int { return 2 * 4 * 3 },
+		N: func(string) int { return 2 * 4 * 3 * 4 },
 		Do: func(c *mon.C) {
 			server := c.I%2 == 0
 			wbuf := []int{0, 16, 64, 100}[c.I/2%4]
-			mode := c.I / 8 // 0 error, 1 short write 1 + error, 2 sticky
+			mode := c.I / 8 % 3 // 0 error, 1 short write 1 + error, 2 sticky
+			// the application's extra header reaches the buffered writer as a string, as one byte slice larger
+			// than the buffer (default buffer included), through several Write calls of a header function, or
+			// from an http.Header: which of the buffered writer's paths takes it must not matter
+			hkind := c.I / 24
+			var extra ws.HandshakeHeader
+			switch hkind {
+			case 0:
+				extra = ws.HandshakeHeaderString("X-Long: " + strings.Repeat("h", 150) + "\r\n")
+			case 1:
+				extra = ws.HandshakeHeaderBytes("X-Long: " + strings.Repeat("h", 6000) + "\r\n")
+			case 2:
+				extra = ws.HandshakeHeaderFunc(func(w io.Writer) (int64, error) {
+					var n int64
+					for _, part := range []string{"X-A: 1\r\n", "X-Long: " + strings.Repeat("h", 5000) + "\r\n", "X-B: 2\r\n", "X-Longer: " + strings.Repeat("g", 9000) + "\r\n"} {
+						m, err := w.Write([]byte(part))
+						n += int64(m)
+						if err != nil {
+							return n, err
+						}
+					}
+					return n, nil
+				})
+			default:
+				extra = ws.HandshakeHeaderHTTP(http.Header{"X-Long": {strings.Repeat("h", 5000)}, "X-Short": {"1"}})
+			}
 			req := gen.BuildReq(c.Rng, map[string]string{"extra": "some"}, []string{"chat"}, nil)
 			// count the destination calls of a healthy run first
 			healthy := func(rec *xport.Rec) error {
 				if server {
-					u := ws.Upgrader{WriteBufferSize: wbuf, Protocol: func([]byte) bool { return true }, Header: ws.HandshakeHeaderString("X-Long: " + strings.Repeat("h", 150) + "\r\n")}
+					u := ws.Upgrader{WriteBufferSize: wbuf, Protocol: func([]byte) bool { return true }, Header: extra}
 					_, err := u.Upgrade(xport.RW{Reader: bytes.NewReader(req.Bytes()), Writer: rec})
 					return err
 				}
 				u, _ := url.ParseRequestURI("ws://fault.example/x")
-				d := ws.Dialer{WriteBufferSize: wbuf, Protocols: []string{"chat"}, Header: ws.HandshakeHeaderString("X-Long: " + strings.Repeat("h", 150) + "\r\n")}
+				d := ws.Dialer{WriteBufferSize: wbuf, Protocols: []string{"chat"}, Header: extra}
 				rw := &cutRW{build: func(reqb []byte) []byte {
 					key := ""
 					for _, l := range strings.Split(string(reqb), "\r\n") {
@@ -284,15 +310,17 @@ func subHandshakeWriteFault() mon.Sub {
 				err := healthy(rec)
 				if err == nil {
 					c.Fail(fmt.Sprintf("handshake/write-fault-swallowed/%s", map[bool]string{true: "upgrader", false: "dialer"}[server]),
-						fmt.Sprintf("destination write call %d of %d failed during the handshake but nil was returned", j, len(rec0.Calls)), map[string]interface{}{"server": server, "write_buffer": wbuf, "mode": mode, "failing_call": j})
+						fmt.Sprintf("destination write call %d of %d failed during the handshake but nil was returned", j, len(rec0.Calls)), map[string]interface{}{"server": server, "write_buffer": wbuf, "mode": mode, "failing_call": j, "extra_header_given_as": hkinds[hkind]})
 					return
 				}
 			}
-			c.Classf("server=%v wbuf=%d mode=%d calls=%d", server, wbuf, mode, len(rec0.Calls))
+			c.Classf("server=%v wbuf=%d mode=%d calls=%d hdr=%s", server, wbuf, mode, len(rec0.Calls), hkinds[hkind])
 			c.Sample(map[string]interface{}{"server": server, "write_buffer": wbuf, "destination_calls": len(rec0.Calls), "mode": mode})
 		},
 	}
 }
+
+var hkinds = []string{"string", "bytes larger than the buffer", "function with several writes", "http.Header"}
 
 // failW routes reads to rw and writes to both rw (so that the scripted peer sees the request) and rec (which may fail).
 type failW struct {
